@@ -173,6 +173,19 @@ func runTokens(c *h.Ctx, r *h.Report) {
 						rqs = append(rqs, rq{tokCase{cfg, "cross-role: publisher-signed, replayed on the API", pubSigned, "api", cn}, a})
 					}
 				}
+				// rights come from the presented, validated token alone: a token that is refused (signed with the other
+				// role's key) carrying the namespaced claim with every right, then a valid token whose rights do not
+				// cover the request — whatever the hub kept from the refused one must not widen them
+				nsAll := `{"https://mercure.rocks/":{"publish":["*"],"subscribe":["*"],"payload":"F"}}`
+				restricted := `{"mercure":{"publish":["other"],"subscribe":["other"],"payload":"R"}}`
+				forgedP, forgedS := jws.Mint(f.subKey, nsAll), jws.Mint(f.pubKey, nsAll)
+				restrP, restrS := jws.Mint(f.pubKey, restricted), jws.Mint(f.subKey, restricted)
+				for _, cn := range []string{"header", "query", "cookie"} {
+					rqs = append(rqs, rq{tokCase{cfg, "forged: namespaced claim with every right, other role's key", forgedP, "pub", cn}, carriers(forgedP)[cn]},
+						rq{tokCase{cfg, "restricted (after a refused token with every right)", restrP, "pub", cn}, carriers(restrP)[cn]})
+				}
+				rqs = append(rqs, rq{tokCase{cfg, "forged: namespaced claim with every right, other role's key", forgedS, "api", "header"}, carriers(forgedS)["header"]},
+					rq{tokCase{cfg, "restricted (after a refused token with every right)", restrS, "api", "header"}, carriers(restrS)["header"]})
 				// and every valid token once more at the end (an answer must not depend on what was seen before)
 				for _, m := range pubMut[:1] {
 					for cn, a := range carriers(m[1]) {
@@ -235,6 +248,11 @@ func runTokens(c *h.Ctx, r *h.Report) {
 						r.Violate(h.Violation{Key: "C03:unverifiable-token-not-refused",
 							What:   fmt.Sprintf("%s endpoint (%s carrier, anonymous=%v, alg %s) answered %d to a token mutated by %q", q.cs.Endpoint, q.cs.Carrier, anon, k.Alg, status, q.cs.Mutation),
 							Replay: map[string]any{"family": "tokens", "case": q.cs}})
+					}
+					if strings.HasPrefix(q.cs.Mutation, "restricted (after") && status == 200 {
+						r.Violate(h.Violation{Key: "C03:rights-granted-beyond-the-presented-token",
+							What:   fmt.Sprintf("%s endpoint (%s carrier, alg %s): a valid token whose claims do not cover the request was answered 200 right after a refused token carrying every right", q.cs.Endpoint, q.cs.Carrier, k.Alg),
+							Replay: map[string]any{"family": "tokens", "case": q.cs, "preceded_by": rqs[i-1].cs, "note": "two requests in sequence on one hub: the refused token first, then this one (topic 't')"}})
 					}
 					if good && status != 200 {
 						r.Count("valid-token-refused:" + q.cs.Mutation)
